@@ -319,8 +319,17 @@ def gen_case(rng, n):
                       expr.atoms(Index)][0]]
             expr = expr + rand_pref(rng) * NT("W", tuple(tg) + (q,)) * \
                 NT("Z", (q,))
-    if rng.random() < 0.06:
-        expr = expr * Symbol(rng.choice(["x", "c0"])) ** rng.choice([1, 2])
+    r = rng.random()
+    if r < 0.10:
+        expr = expr * Symbol(rng.choice(["x", "c0"])) ** rng.choice(
+            [1, 2, 3, 1, 2, -1, -2])
+        if rng.random() < 0.4:
+            expr = expr * Symbol("omega") ** rng.choice([1, 2, 4, -1])
+    elif r < 0.13 and not tg:
+        # pure symbol / number terms next to (or instead of) the tensor term
+        sym = Symbol("gam") ** rng.choice([1, 2, -1, -2, 3]) * \
+            rng.choice([1, 3, Rational(1, 2), Rational(-2, 3)])
+        expr = sym if rng.random() < 0.5 else expr + sym
     from sympy import expand
     expr = expand(expr)
     if expr == 0:
@@ -361,6 +370,22 @@ def corpus():
         "ia,jb", bks=1)
     add("corpus:symbol", Symbol("x") * AT("f", (i,), (j,)) *
         AT("Y", (j,), (a,)), [i, a], "ia")
+    gam, om = Symbol("gam"), Symbol("omega")
+    add("corpus:pure-symbol-division", 3 / gam, [], "")
+    add("corpus:pure-symbol-power", Rational(2, 3) * gam ** 3 * om, [], "")
+    add("corpus:pure-symbol-division-sum", 3 / gam ** 2 + om +
+        Rational(1, 2) * NT("A", (i, i)), [], "")
+    add("corpus:symbol-division-with-tensors", Rational(3, 5) * om ** 2 / gam *
+        NT("A", (i, a)) * NT("B", (i, b)), [a, b], "ab")
+    add("corpus:symbol-division-nested", 1 / gam * AT("V", (i, j), (a, b)) *
+        Amplitude("t1", (a, c), (j, k)) * Amplitude("Y", (k,), (c,)),
+        [i, b], "ib")
+    add("corpus:symbol-division-single", om ** -2 * AT("f", (i,), (a,)),
+        [i, a], "ia")
+    add("corpus:symbol-power-with-tensors", om ** 3 * gam * NT("A", (i, a)) *
+        NT("B", (i, b)), [b, a], "ba")
+    add("corpus:tensor-division", NT("A", (i, a)) / NT("Z", (i,)) *
+        NT("B", (i, b)), [a, b], "ab", explicit=True)
     add("corpus:name-prefix-V", AT("Vx", (i, j), (a, b)) *
         AT("V", (a, b), (i, k)), [j, k], "jk")
     add("corpus:name-prefix-f", NT("fancy", (i, a)) * AT("f", (i,), (b,)),
@@ -457,6 +482,11 @@ def classify(case, variant, obs, kind, detail):
             "expected str instance, NoneType found" in msg and \
             any(isinstance(o.base, Symbol) for t in terms for o in t.objects):
         return "C17:symbol-prefactor:x*f_ij*Y_ja"
+    if kind in ("value", "exec") and any(
+            not t.idx and any(isinstance(o.base, Symbol) and
+                              S(o.exponent) < 0 for o in t.objects)
+            for t in terms):
+        return "C17:symbol-negative-exponent-dropped:3/gam"
     if kind in ("value", "exec") and opt and scheme_leak(obs):
         return "C17:contracted-index-still-in-use:A_ij*B_ik*C_ij*D_j->k"
     if kind in ("value", "exec") and be == "einsum" and detail and \
@@ -571,6 +601,31 @@ def run(ctx):
                 coq_cases.append(cc if cc is not None else '"NOINPUT"')
 
     vals, errs = ctx.coq_eval("tie", coq_cases, header=U.COQ_HEADER, shard=40)
+    # scheme_guard vs the object loop of the scheme search, called directly
+    # (generate_code refuses divisions by symbols already in format_prefactor)
+    g_cases = {}
+    for case, be, opt, obs in records:
+        if be != "einsum":
+            continue
+        for descr, term, want in U.direct_guard_cases(
+                obs, case["tstr"], case["tspin"], opt):
+            g_cases.setdefault((term, opt), (descr, want))
+    g_keys = list(g_cases)
+    gvals, _ = ctx.coq_eval("guard", [k[0] for k in g_keys],
+                            header=U.COQ_HEADER, shard=200)
+    for (term, opt), val in zip(g_keys, gvals):
+        descr, want = g_cases[(term, opt)]
+        fn = "optimize_contractions" if opt else "unoptimized_contraction"
+        ctx.case(key=("guard", term, opt), nontrivial=want == "Refuse",
+                 kind=f"guard:{'opt' if opt else 'unopt'}:{want.split()[0]}")
+        if not ctx.obligation(f"scheme_guard == {fn} refusal for {descr}",
+                              val == want, f"coq {val} / impl {want}"):
+            ctx.violation(
+                f"C17:model-mismatch:scheme-guard:{fn}:{descr[:80]}",
+                f"{fn} and the Gallina scheme_guard disagree on refusing the "
+                "term (division / non-tensor object)",
+                {"term": descr, "function": fn, "model": val, "impl": want,
+                 "correspondence": "Models/Codegen.v scheme_guard"}, False)
     # Obj.longname vs the Gallina model
     ln_cases = {}
     for case, be, opt, obs in records:
@@ -598,7 +653,12 @@ def run(ctx):
             chk_cases.append(cc)
             chk_owner.append(n)
     cvals, _ = ctx.coq_eval("hyp", chk_cases, header=U.COQ_HEADER, shard=80)
-    hyp = {}
+    sy_owner = [n for n, (_, _, _, obs) in enumerate(records)
+                if obs.outcome == "ok"]
+    svals, _ = ctx.coq_eval("symexp", [U.coq_syms_case(records[n][3])
+                                       for n in sy_owner],
+                            header=U.COQ_HEADER, shard=200)
+    hyp = {n: {"c_symexp": v == "true"} for n, v in zip(sy_owner, svals)}
     for n, v in zip(chk_owner, cvals):
         d = U.parse_checks(v)
         if not d:
